@@ -467,7 +467,10 @@ func runC14(o *opts) (*summary, error) {
 	}
 	// addresses violating the port rules, through JSON
 	for _, role := range addrRoles {
-		for _, s := range []string{"192.168.1.100:0", "192.168.1.100:60000", "192.168.1.100:60001", "192.168.1.100", "0.0.0.0:1", "1.2.3", "", "x"} {
+		for _, s := range []string{"192.168.1.100:0", "192.168.1.100:60000", "192.168.1.100:60001", "192.168.1.100", "0.0.0.0:1", "1.2.3", "", "x",
+			// (ports that are no ports, texts that are not plain decimal, texts without a dotted quad)
+			"192.168.1.100:65535", "192.168.1.100:65536", "192.168.1.100:65537", "192.168.1.100:70000", "192.168.1.100:99999", "192.168.1.100:125536", "192.168.1.100:4294967297",
+			"192.168.1.100:0x50", "192.168.1.100:+80", "192.168.1.100: 80", "192.168.1.100:", " 192.168.1.100:60001", "192.168.1.100:60001 ", "1:2:3:4::", "[::1]:60001", "::", "localhost:60001", "255.255.255.255:65535", "0.0.0.0:0", "0.0.0.0:60000"} {
 			role, s := role, s
 			rec := M{"fn": "parse", "role": role, "s": cps(s), "text": s, "via": "json"}
 			out := M{"t": "err"}
